@@ -87,4 +87,4 @@ static void handle(int nf, char **f, FILE *out) {
     } else fprintf(out, "driver-error:bad-case");
 }
 
-int main(void) { return run_cases(stdin, handle, 20); }
+int main(void) { return run_cases(stdin, handle, 5); }
